@@ -85,3 +85,32 @@ Proof.
   rewrite gen_apply_is_fedavg_apply. f_equal. unfold ls_apply, fedavg_apply, C01_Model.train_for_each_client.
   f_equal. apply map_ext. intros c. rewrite ls_program_is_gen. reflexivity.
 Qed.
+
+(* ---- further translated pieces of the constructor ---- *)
+From FV Require gen.Gen_tree_l2.
+
+(* tree_util.tree_l2_norm: the diagnostics value of the model (sumsq delta) is the SQUARE of what the code stores *)
+Lemma gen_l2_norm_squared_is_sumsq v : Gen_tree_l2.tree_l2_norm_squared v = sumsq v.
+Proof. reflexivity. Qed.
+
+(* federated_averaging.init: the server state is (params, server_optimizer.init(params)) *)
+Lemma gen_fedavg_init {OS : Type} (sinit : list Q -> OS) p : Gen_fed_avg.init sinit p = (p, sinit p).
+Proof. reflexivity. Qed.
+
+(* the constructor hands create_train_for_each_client(grad_fn, client_optimizer) to apply *)
+Lemma gen_fedavg_wiring : Gen_fed_avg.fed_avg_wiring = true.
+Proof. reflexivity. Qed.
+
+(* ShuffleRepeatBatchView.__init__ (translated): the number of client steps is what the documentation of
+   shuffle_repeat_batch promises -- floor(N*E/B) full batches with drop_remainder, ceil(N*E/B) otherwise, capped by
+   num_steps; num_steps alone when num_epochs is None.  C01_agree checks every recorded stream against it. *)
+From FV Require gen.Gen_client_datasets.
+Local Open Scope Z_scope.
+Lemma shuffle_num_steps_documented N bs e s (drop : bool) :
+  Gen_client_datasets.shuffle_num_steps N bs e s drop =
+  Some (match e with
+        | Some e => let full := if drop then (N * e) / bs else (N * e + bs - 1) / bs in
+                    Some (match s with Some s => Z.min s full | None => full end)
+        | None => s
+        end).
+Proof. unfold Gen_client_datasets.shuffle_num_steps. destruct e, s, drop; reflexivity. Qed.
